@@ -213,6 +213,17 @@ def parking(threads, point, k, victim, flushmode=0):
             if flushmode == 1: s += chr(ord('a') + int(o))
     return s
 
+def parking_ops(threads, victim, p1, k1, p2=0, k2=0, runner=None):
+    """op-level parking (uses the '>t' token): victim runs p1 steps; every other thread (or `runner`) completes k1 whole operations;
+    victim runs p2 more steps; the others complete k2 more operations."""
+    others = [runner] if runner else [t for t in threads if t != victim]
+    vf = victim + chr(ord('a') + int(victim))       # step, then flush the victim's oldest buffered store (eager)
+    s = vf * p1
+    for _ in range(k1): s += ''.join('>' + o for o in others)
+    s += vf * p2
+    for _ in range(k2): s += ''.join('>' + o for o in others)
+    return s
+
 # ---------------------------------------------------------------- reporting
 def known_findings(pid):
     out = []
